@@ -101,6 +101,8 @@ def s_tm02(m, V, pos):
 def s_dm(m, V, pos):
     a = m.sigma(V.NF, lambda i: s_momd(m, V, pos, i, 1)[0])
     b = m.sigma(V.NF, lambda i: s_momd(m, V, pos, i, 1)[1])
+    if not m.symbolic and (a * a + b * b) ** 0.5 < 1e-9:
+        return float("inf")  # zero resultant: direction undefined, concrete comparison skipped
     return m.mod(270 - (180 / m.pi) * m.atan2(a, b), 360)
 
 
@@ -335,7 +337,7 @@ def _scalar_contract(name, spec, uses, scen=SC_ALL, props=("C01", "C06"), stub=N
         V = View(da)
         pos = c.position(V)
         c.ensure_dims("dims", r, V.pos_dims)
-        c.ensure_eq("defining_sum", c.value(r, pos), spec(c.m, V, pos, **kw))
+        (c.ensure_angle_eq if name == "dm" else c.ensure_eq)("defining_sum", c.value(r, pos), spec(c.m, V, pos, **kw))
         own_position_only(c, da, r, pos, recompute=lambda d2: c.call(d2.spec, **kw))
 
     verify.__name__ = "v_" + name
